@@ -472,6 +472,8 @@ static int hx_nspawns;
 static int hx_nextpid = 5000;
 static int hx_lastpipe_r = -1;
 static int hx_pipe_fail;	/* number of pipe() calls to fail with EMFILE */
+static long hx_spawn_total;	/* all spawns, also those beyond the HX_MAXSPAWN that are recorded */
+static int hx_last_nd;
 static int hx_spawn_fail;	/* number of posix_spawn() calls to fail with EAGAIN */
 static int hx_sticky_nd;	/* argv[2] of the latest spawn was -nd (the static args[] never forgets) */
 
@@ -519,6 +521,11 @@ posix_spawn(pid_t *pid, const char *path, const posix_spawn_file_actions_t *fa,
 			if (!strcmp(argv[i], "-nd")) s->nd = 1;
 		}
 		hx_sticky_nd = s->nd;
+	}
+	hx_spawn_total++;
+	hx_last_nd = 0;
+	for (int i = 0; argv[i]; i++) {
+		if (!strcmp(argv[i], "-nd")) hx_last_nd = 1;
 	}
 	*pid = hx_nextpid++;
 	return 0;
@@ -669,6 +676,22 @@ hx_exit_child(int i, int st)
 	ev_child *c = hx_chld[i];
 	c->rpid = c->pid;
 	c->rstatus = st;
+	ev_feed_event(hx_ctx->loop, c, EV_CHILD);
+	return hx_iterate();
+}
+
+/* live child I is stopped (SIGSTOP) or continued: libev tells a watcher about that only when it was set up with the
+ * trace flag; the job is still alive afterwards */
+static int
+hx_stop_child(int i, int cont)
+{
+	ev_child *c = hx_chld[i];
+	if (!c->flags) {
+		/* not traced: nothing reaches the daemon */
+		return 0;
+	}
+	c->rpid = c->pid;
+	c->rstatus = cont ? 0xffff : 0x137f;	/* WIFCONTINUED / WIFSTOPPED by SIGSTOP */
 	ev_feed_event(hx_ctx->loop, c, EV_CHILD);
 	return hx_iterate();
 }
